@@ -85,6 +85,11 @@ def mix_tags(case):
             for r in sc['reqs']:
                 tags.append('request:' + r['kind'])
             tags.append(f'retries:{sc["retries"]}')
+            for flag in ('bystander', 'nested', 'boom', 'txtime', 'backoff', 'background', 'drainflush', 'eof', 'baud', 'expect'):
+                if sc.get(flag) is not None:
+                    tags.append('scenario:' + flag)
+            if any(r.get('retarget') for r in sc['reqs']):
+                tags.append('scenario:retarget')
         except ValueError:
             pass
     elif kind in ('srv', 'level'):
@@ -247,6 +252,7 @@ PROPS = {
     'C19': {
         'jobs': [{'component': 'render', 'profile': 'render', 'quick': 90, 'thorough': 300},
                  {'component': 'level', 'profile': 'level', 'quick': 1200, 'thorough': 3000, 'project': 'result+sent'},
+                 {'component': 'valset', 'profile': 'valget', 'quick': 120, 'thorough': 600},
                  {'component': 'key', 'profile': 'codec', 'quick': 450, 'thorough': 3000}],
         'exhaustive_note': 'every table-driven renderer over all 256 values of its byte (X4 mode: all combinations of its rendered bits), decoded and edited',
         'assumptions': ['R7: stale derived text after an edit is not a violation; text fields ASCII'],
